@@ -324,9 +324,28 @@ pub fn gen_weed_fasta(rng: &mut Rng, samples: &[Sample], k: usize) -> String {
             }
         };
         let mut seq = if rng.chance(35) { revcomp(&seq) } else { seq };
-        if rng.chance(15) && seq.len() > 2 * k + 6 {
-            let at = rng.range(k + 2, seq.len() - k - 3);
-            seq[at] = b'N';
+        if rng.chance(20) && seq.len() > 2 * k + 6 {
+            // N in the middle, near the record start, near its end, or two N's less than k apart
+            match rng.below(5) {
+                0 => {
+                    let at = rng.range(1, k - 1);
+                    seq[at] = b'N';
+                }
+                1 => {
+                    let at = seq.len() - 1 - rng.range(1, k - 1);
+                    seq[at] = b'N';
+                }
+                2 => {
+                    let at = rng.range(1, seq.len() - k - 1);
+                    seq[at] = b'N';
+                    let d = rng.range(1, k - 1);
+                    seq[at + d] = b'N';
+                }
+                _ => {
+                    let at = rng.range(k + 2, seq.len() - k - 3);
+                    seq[at] = b'N';
+                }
+            }
         }
         // guarantee a window of k+1 valid bases (an all-N or too-short file is refused by ska)
         if !seq.windows(k + 2).any(|w| w.iter().all(|b| *b != b'N')) {
